@@ -87,6 +87,46 @@ def random_case(rng: random.Random):
     return {"sc": sc, "kd": kd, "ms": ms, "bs": bs}
 
 
+def decimal_tie_case(rng: random.Random):
+    """one-decimal scores (tenths, den = 10: not binary fractions). The only exact ties are runs that START with a pair
+    scoring x directly followed by a position scoring -x (x + (-x) is 0 in floating point as well, whatever else the
+    list holds); every other contiguous sub-sum stays at least 0.1 away from 0, -bs and ms, far beyond rounding noise -
+    so exact decimal arithmetic (TLC, tenths as integers) and any float evaluation of "the sum of the run's members"
+    agree on every comparison the property makes. Returns None when the drawn list has another tie."""
+    def d1(lo, hi):
+        while True:
+            v = rng.randint(lo * 10, hi * 10)
+            if v % 5:
+                return v
+    ms = rng.choice([1000, 500, 250, 1]) * 10
+    bs = rng.choice([1200, 500, 1000, 2000]) * 10
+    sc = []
+    for _ in range(rng.randint(1, 3)):
+        if rng.random() < 0.7:                       # a run that is broken by a valley
+            sc += [d1(300, 1500) for _ in range(rng.randint(1, 3))]
+            drop = -rng.choice([2500, 5000, 2507, 3333])
+            while sum(sc) > 0 or -sum(sc[-3:]) < bs and len(sc) < 30:
+                sc.append(drop)
+                if sum(sc) <= 0:
+                    break
+        x = d1(200, 999)
+        sc += [x, -x] + [d1(300, 1500) for _ in range(rng.randint(1, 4))]
+        if rng.random() < 0.5:
+            sc += [-2500, d1(300, 1200)]
+    n = len(sc)
+    if n > 40:
+        return None
+    pairs = {(i, i + 2) for i in range(n - 1) if sc[i] > 0 and sc[i + 1] == -sc[i]}
+    for i in range(n):
+        acc = 0
+        for j in range(i, n):
+            acc += sc[j]
+            if acc in (0, -bs, ms, bs) and (i, j + 1) not in pairs:
+                return None
+    kd = ["P" if v > 0 else rng.choice(["P", "P", "R", "Q"]) for v in sc]
+    return {"sc": sc, "kd": kd, "ms": ms, "bs": bs}
+
+
 def is_nontrivial(case, obs):
     nonempty = [o for o in obs if o["idx"]]
     if len(nonempty) >= 2:
@@ -113,13 +153,14 @@ def run(ctx: Ctx):
     rng = random.Random(ctx.seed * 7919 + 13)
     ctx.rule = ("inputs: (i) the InputSpace of MC_Segmenter exported by TLC (all score sequences up to MaxLen over "
                 "{-3,-1,0,1,2,3} x ms{1,2,3} x bs{0,1,2,3,5}), (ii) random sequences of length 5..40 in three styles "
-                "(small alphabet, realistic sp/dp/su scores, runs and valleys); each is run through the real "
+                "(small alphabet, realistic sp/dp/su scores, runs and valleys), (iii) one-decimal score lists with x, -x cancellations at run starts; each is run through the real "
                 "AlignmentSegmentsFactory and judged by TLC (Trace_Segmenter: C13 clauses + Impl replay). "
                 "non-trivial = distinct input whose real result has >= 2 segments, or one segment followed/preceded by "
                 "rejected positions, or an empty result with ms<=bs although a positive pair exists")
     ctx.assumptions = ["domain of C13: ms >= 1, bs >= 0 (bs = 0: see Segmenter.tla - strict reading of 'falls', no right-maximality), unpaired positions score <= 0 (DESIGN.md 4/C13)",
                        "the converse of the last sentence is demanded only where ms <= bs",
-                       "scores are integers or halves (scaled); the real builder is fed exact binary floats"]
+                       "scores are integers or halves (exact binary floats), or one-decimal values whose only exact ties are x, -x "
+                       "cancellations at the start of a run (see decimal_tie_case): there decimal and float evaluation agree"]
 
     # (A) exhaustive model check, in the background while the real code is driven
     mc_res = {}
@@ -143,6 +184,13 @@ def run(ctx: Ctx):
     n_rand = 4000 if quick else 150000
     for k in range(n_rand):
         cases.append((random_case(rng), 2 if k % 5 == 0 else 1))
+    n_dec = 0
+    for k in range(n_rand // 4):
+        c = decimal_tie_case(rng)
+        if c is not None:
+            cases.append((c, 10))
+            n_dec += 1
+    ctx.notes["one_decimal_cases_with_cancellation_at_run_start"] = n_dec
     records = []
     for case, den in cases:
         obs = run_real(case, den)
